@@ -79,7 +79,13 @@ func c02ReadBack(c *kit.Case, d *gen.Doc, keyPrefix string) {
 		fail("info", "Info read %+v, none written", meta.Info)
 	}
 
-	for _, o := range d.Objs {
+	// (documents with tens of thousands of objects: every member of an object stream
+	// costs a pass over the whole stream, so a sample of ~1500 objects plus both ends)
+	stride := max(1, len(d.Objs)/1500)
+	for oi, o := range d.Objs {
+		if stride > 1 && oi%stride != 0 && oi > 20 && oi < len(d.Objs)-20 {
+			continue
+		}
 		got, err := r.Get(o.Ref, true)
 		if err != nil {
 			fail("get", "Get(%s): %v", o.Ref, err)
@@ -238,6 +244,21 @@ func c02CaseW(c *kit.Case, withRejected, bigGaps, widths bool) {
 		if c.Index%4 >= 2 {
 			cfg.WideObjStm = true
 			cfg.NoObjStm = false
+		}
+		if c.Index%8 == 6 {
+			// an object stream with a number above 255 in a file of a few hundred bytes
+			cfg.PadBytes, cfg.WideObjStm = 0, false
+			cfg.ManyUnwritten = kit.Pick(c.Rng, []int{254, 300, 3000}) // (not more: D18)
+			cfg.TinyObjStm = true
+			cfg.NoObjStm = false
+			cfg.MaxOps = c.Rng.Intn(3)
+			cfg.Version = gen.Versions[5+c.Index/8%4]
+			cfg.HumanReadable = c.Index%32 == 30
+		}
+		if c.Index%20 == 3 {
+			cfg.HugeObjStm = true
+			cfg.Version = gen.Versions[5+c.Index/20%4]
+			cfg.HumanReadable = false
 		}
 		if c.Index%8 == 2 {
 			// large xref streams (and tables, one in four)
